@@ -95,6 +95,7 @@ func c13Gen(c *vfCtx, emit func(c13Case)) {
 	pairs(texts(c13Seqs([]string{"a\xff", "a\xfe", "é"}, n2), false), []bool{false, true})
 	pairs(texts(c13Seqs([]string{"+ x", "  x", "@@ -1 +1 @@", "at f:1"}, 2), true), []bool{false})
 	pairs(texts(c13Seqs([]string{"87%", "%20r", "%%", "%!d(MISSING)", "$1"}, 2), true), []bool{false, true})
+	pairs(texts(c13Seqs([]string{"a", "a\r", "\r", "a\r\r"}, 3), true), []bool{false, true})
 	for _, p := range vfLongTexts(c.thorough()) {
 		for _, col := range []bool{false, true} {
 			emit(c13Case{S: p[0], R: p[1], Color: col})
